@@ -67,6 +67,9 @@ def gen_inputs(key, r):
     if base == 'distance_wei':
         A = _dir(r, n, p=float(r.choice([.2, .4, .7]))) if r.random_sample() < .6 else _und(r, n, p=float(r.choice([.3, .6])))
         return dict(G=np.abs(A))
+    if base == 'efficiency_wei':
+        A = _dir(r, n, p=float(r.choice([.2, .4, .7]))) if r.random_sample() < .6 else _und(r, n, p=float(r.choice([.3, .6])))
+        return dict(Gw=np.abs(A), local=False)
     if base == 'reachdist':
         A = _dir(r, n, p=float(r.choice([.1, .25, .5]))) if r.random_sample() < .7 else _und(r, n, p=float(r.choice([.2, .5])))
         return dict(CIJ=A, ensure_binary=True)
